@@ -181,8 +181,7 @@ def wpar (c : RCell) (kind : String) : Option String :=
   | "nft" => some (showOpt showNft (Message.deserializeNftItem rops c))
   | "fees" => some (showOpt showFees (Message.deserializeSaleFees rops c))
   | "sale" => some (showOpt showSale (Message.deserializeSaleData rops c))
-  | "wm" => some (showOpt (fun (o : Option (WalletMsg RCell)) => match o with | some w => showWm w | none => "None")
-      (Message.deserializeWalletMsg rops c))
+  | "wm" => some (showOpt showWm (Message.deserializeWalletMsg rops c))
   | _ => none
 
 def handle? (op : String) (args : List String) : Option String :=
